@@ -57,9 +57,9 @@ PROPS = {
         "not_decided": "that compare_names is the CFB order over all Unicode (ASCII fast path vs general path, upper-casing table); that names are stored verbatim and found under every case variant",
     },
     "C10": {
-        "rules": [rules_api.noeffect],
+        "rules": [rules_api.noeffect, rules_name.validname_effects_only],
         "explanation": "R-NOEFFECT (must-not-precede): refusal points of every API method (io::Error::new with NotFound/AlreadyExists/InvalidInput, and error exits of effect-free fallible callees that can construct such kinds) are enumerated from MIR; "
-                       "no path from the entry to a refusal point may pass a call whose transitive effects include a state/file mutation, a Stream drop, or a store to a Stream field.",
+                       "no path from the entry to a refusal point may pass a call whose transitive effects include a state/file mutation, a Stream drop, or a store to a Stream field. R-VALIDNAME(noeffect): the refusal of an invalid name (made below the API layer, in the directory code) is not preceded by a mutation anywhere on the creation call chain.",
         "not_decided": "bit-for-bit equality of state (follows from 'no effect ran' only given that effect-free code is effect-free, which the effect closure establishes for this crate); partial effects of the compound operations create_storage_all/remove_storage_all when a later step is refused by a callee",
     },
     "C12": {
